@@ -19,7 +19,8 @@ CHECKS = {
         deadline=dict(quick=150, thorough=900),
         rule=("every input of the stated alphabets/lengths is run once (complete enumeration, no sampling); a case is non-trivial when the "
               "decoder/resolver/finder accepted it and a value comparison took place: encode->decode round trips, accepted candidate "
-              "encodings, resolved address literals (incl. print/serialize/dup round trips), JSON searches that found a member. "
+              "encodings, resolved address literals (incl. print/serialize/dup round trips), JSON searches that found a member "
+              "(a bracketed literal whose port text is not a decimal numeral is a rejection case: it must not resolve, and is not counted as non-trivial). "
               "distinct_nontrivial is a lower bound: one distinct-set per family, each saturating at 2^20 entries"),
         bounds=dict(
             quick=("base-64: all byte strings of <=3 bytes (16 843 009) + {00,01,7f,80,ff,'A'}^4..6; acceptance over {A B / + = * NUL a}^0..6; "
@@ -27,6 +28,9 @@ CHECKS = {
                    "endian: all 16-bit values, 32/64-bit values with bytes in {00,01,80,ff} + single bits, offsets 0..7; "
                    "addresses: IPv4 {0,1,9,10,99,100,127,255}^4 x ports {1,80,9999,65535} x {bracketed, host form}, IPv6 {0,1,abcd,ffff}^8 x "
                    "{full x 4 ports, upper-case, every maximal zero run as '::' (one rotating port)}, Unix paths of length 1..107 x 2 patterns; "
+                   "port spellings on bracketed literals (IPv4 {0,1,9,10,99,100,127,255}^4; IPv6 {0,1,abcd,ffff}^4 in groups 0,1,6,7 with groups 2..5 zero x "
+                   "{full, upper-case, every maximal zero run as '::'}): ports with leading zeros {010,0100,0080,00443,065535,01,0000000000000000000009999} "
+                   "resolve to the decimal value, port texts that are not decimal numerals {0x50,0X1f,1e3,'80 ','',0x,080x,0b11} do not resolve; "
                    "JSON: objects of 0..3 members from 9 names x 13 values, whitespace none / every gap, 9 keys"),
             thorough=("as quick, with base-64 strings and candidates up to 8 characters, hex candidates up to 8 characters, "
                       "all four ports for every IPv6 form. The thorough tier (--deep) adds: base-64 round trips {00,01,7f,80,ff,'A'}^4..10 and every "
@@ -41,6 +45,7 @@ CHECKS = {
                      "libcperciva warn()/warnx() replaced by a silent formatter (util/warnp.c not linked)",
                      "well-formed base-64 = syntactic RFC 4648 definition; non-zero discarded bits not required to be rejected (DESIGN.md §5)",
                      "port 0 and Unix paths not starting with '/' are outside the stated domain and not generated",
+                     "a port is a decimal numeral (leading zeros allowed, never octal/hexadecimal); '+80' and ' 80' (sign / leading blank, accepted by the library as 80) are not asserted either way",
                      "sockaddr layouts are those of this platform (Linux x86-64)"],
     ),
 }
@@ -53,7 +58,8 @@ CLAIMS = {
               "string over an 8-symbol alphabet (alphabet, pad, non-alphabet, NUL) is accepted exactly when syntactically well-formed and "
               "decodes to the reference value; the single-byte hex decoder/encoder is covered completely; endian stores/loads are "
               "compared with byte orders computed by division at offsets 0..7; address literals are rendered from numeric tuples, so the "
-              "expected sockaddr is known by construction, and print/serialize/dup round trips are compared field by field as well as by "
+              "expected sockaddr is known by construction (ports also written with leading zeros, which must keep their decimal value; port "
+              "texts in hexadecimal, exponent or padded notation must not resolve), and print/serialize/dup round trips are compared field by field as well as by "
               "sock_addr_cmp (which must also tell edited copies apart); JSON objects are rendered from (name,value) trees so the expected "
               "offset is known by construction."),
         note=("Trusted: the reference in engine/ref/ref_codec.c, OpenSSL's EVP_EncodeBlock, the document/address renderers in "
